@@ -475,6 +475,193 @@ theorem inv2_stepPc (c : Cfg) (p : Nat) (s : St) (h : Inv2 s) (hr : (s.procs p).
     · split
       · exact inv2_leave p s s.holder { s.procs p with err := some .lockTimeout } h rfl rfl (by simp)
       · apply inv2_local p s _ h <;> simp_all
-  all_goals sorry
+  next i hpc => -- pick
+    have e1 := loopPc_writeTs c (s.procs p).kind (i + 1)
+    rcases loopPc_cases c (s.procs p).kind (i + 1) with e | e | e <;>
+      (split <;> split <;> apply inv2_local p s _ h <;> simp_all)
+  next i hpc => -- mktemp
+    refine inv2_frame p s _ _ h rfl rfl rfl ?_ (Or.inl rfl) ?_ ?_ ?_ <;> simp_all [St.setP]
+  next i hpc => -- create
+    by_cases hc : c.chunks = 0 <;>
+    refine inv2_frame p s _ _ h rfl rfl rfl ?_ (Or.inl rfl) ?_ ?_ ?_ <;> simp_all [St.setP]
+  next i j hpc => -- append
+    have hdirt := h.dirty
+    by_cases hc : j + 1 < c.chunks <;>
+    refine inv2_frame p s _ _ h rfl rfl rfl ?_ (Or.inl rfl) ?_ ?_ ?_ <;> simp_all [St.setP] <;>
+    first
+      | (intro hd; funext n; have := (hdirt hd).1; simp_all [upd]; done)
+      | grind
+  next i hpc => -- rename
+    have hdirt := h.dirty
+    have e1 := loopPc_writeTs c (s.procs p).kind (i + 1)
+    split
+    · next ct hct =>
+      rcases loopPc_cases c (s.procs p).kind (i + 1) with e | e | e <;>
+      refine inv2_frame p s _ _ h rfl rfl rfl ?_ (Or.inl rfl) ?_ ?_ ?_ <;> simp_all [St.setP] <;>
+      (intro hd; have := (hdirt hd).1; simp_all)
+    · rcases loopPc_cases c (s.procs p).kind (i + 1) with e | e | e <;>
+      apply inv2_local p s _ h <;> simp_all
+  next hpc => -- writeTs
+    refine inv2_frame p s _ _ h rfl rfl rfl ?_ (Or.inr ⟨rfl, h.wts p hr hpc⟩) ?_ ?_ ?_ <;> simp_all [St.setP]
+  next hpc => -- unlock
+    exact inv2_leave p s _ (s.procs p) h rfl rfl (fun m hk _ => h.tsDone p m hk (Or.inl ⟨hr, hpc⟩))
+
+theorem inv2_act (c : Cfg) (a : Action) (s : St) (h : Inv2 s) : Inv2 (act c .safe a s) := by
+  cases a with
+  | step p =>
+    simp only [act, step]
+    split
+    · next hr => exact inv2_stepPc c p s h hr
+    · exact h
+  | crash p => exact inv2_crash p s h
+
+theorem reach_inv2 (c : Cfg) (ps : List (Kind × Nat)) (sched : List Action) :
+    Inv2 (runSt c .safe sched (init ps)) := by
+  suffices ∀ s, Inv2 s → Inv2 (runSt c .safe sched s) from this _ (inv2_init ps)
+  induction sched with
+  | nil => intro s h; exact h
+  | cons a as ih => intro s h; exact ih _ (inv2_act c a s h)
+
+/-- the `dirty` flag of the model is a sound reading of "the directory listing is empty" -/
+theorem dirty_sound (c : Cfg) (ps : List (Kind × Nat)) (sched : List Action)
+    (h : (runSt c .safe sched (init ps)).dirty = false) :
+    (∀ n, (runSt c .safe sched (init ps)).files n = none) ∧
+      (runSt c .safe sched (init ps)).lockFile = false ∧ (runSt c .safe sched (init ps)).ts = none :=
+  (reach_inv2 c ps sched).dirty h
+
+/-- a finished or dead process makes no step -/
+theorem step_not_running (c : Cfg) (proto : Proto) (p : Nat) (s : St) (h : (s.procs p).status ≠ .running) :
+    step c proto p s = s := by
+  unfold step
+  split
+  · next hr => exact absurd hr h
+  · rfl
+
+/-- **mutex**, second half: a process whose last lock attempt finds the lock held by someone takes the
+`CacheException` branch: the only change is its own record (error `lockTimeout`, outside the region; a
+populate / refresh is finished, a loader goes on to its second listing); nothing in the directory, the lock
+or the timestamp changes. -/
+theorem lock_timeout (c : Cfg) (p q : Nat) (s : St)
+    (hr : (s.procs p).status = .running) (hpc : (s.procs p).pc = .tryLock 0) (hh : s.holder = some q) :
+    step c .safe p s = s.setP p (leave { s.procs p with err := some .lockTimeout }) ∧
+      ((step c .safe p s).procs p).inRegion = false := by
+  have e : step c .safe p s = s.setP p (leave { s.procs p with err := some .lockTimeout }) := by
+    simp [step, hr, stepPc, hpc, hh]
+  refine ⟨e, ?_⟩
+  rw [e]
+  rcases leave_cases { s.procs p with err := some .lockTimeout } with ⟨e', _⟩ | ⟨e', _⟩ <;>
+    simp [e', Proc.inRegion, Pc.locked]
+
+/-- an attempt on a held lock never takes it: the holder is unchanged and the process stays outside -/
+theorem lock_busy (c : Cfg) (p q k : Nat) (s : St)
+    (hr : (s.procs p).status = .running) (hpc : (s.procs p).pc = .tryLock (k + 1)) (hh : s.holder = some q) :
+    step c .safe p s = s.setP p { s.procs p with pc := .tryLock k } := by
+  simp [step, hr, stepPc, hpc, hh]
+
+/-- **refresh_skipped** (step form): a process that starts `CacheLock.__enter__` while the recorded
+timestamp `t` is less than the threshold old takes the `CacheException` branch at once: its only primitive
+is reading the timestamp, and the only change is its own record (error `tooRecent`). -/
+theorem refresh_skipped (c : Cfg) (p t : Nat) (s : St)
+    (hr : (s.procs p).status = .running) (hpc : (s.procs p).pc = .readTs)
+    (hts : s.ts = some t) (hnow : (s.procs p).now < t + c.thr) :
+    step c .safe p s = s.setP p (leave { s.procs p with err := some .tooRecent }) ∧
+      labelOf p s = ⟨p, "readTs", 0, 0⟩ := by
+  constructor
+  · simp [step, hr, stepPc, hpc, hts, hnow]
+  · simp [labelOf, hr, hpc]
+
+/-- **refresh_skipped**: in any reachable state in which some refresh has completed, a refresh `p` that
+starts now and whose clock is within the threshold of every refresher's clock is skipped: it ends at once
+with `tooRecent`, having made no file-system step other than reading the timestamp. -/
+theorem refresh_skipped_after_completed (c : Cfg) (ps : List (Kind × Nat)) (sched : List Action)
+    (p q m mp : Nat)
+    (hq : ((runSt c .safe sched (init ps)).procs q).kind = .refresh m)
+    (hqf : ((runSt c .safe sched (init ps)).procs q).status = .finished)
+    (hqe : ((runSt c .safe sched (init ps)).procs q).err = none)
+    (hp : ((runSt c .safe sched (init ps)).procs p).kind = .refresh mp)
+    (hr : ((runSt c .safe sched (init ps)).procs p).status = .running)
+    (hpc : ((runSt c .safe sched (init ps)).procs p).pc = .readTs)
+    (hclock : ∀ q' m', ((runSt c .safe sched (init ps)).procs q').kind = .refresh m' →
+      ((runSt c .safe sched (init ps)).procs p).now < ((runSt c .safe sched (init ps)).procs q').now + c.thr) :
+    step c .safe p (runSt c .safe sched (init ps)) =
+      (runSt c .safe sched (init ps)).setP p
+        { (runSt c .safe sched (init ps)).procs p with err := some .tooRecent, status := .finished } := by
+  have hi := reach_inv2 c ps sched
+  have hsome := hi.tsDone q m hq (Or.inr ⟨hqf, hqe⟩)
+  cases hts : (runSt c .safe sched (init ps)).ts with
+  | none => simp [hts] at hsome
+  | some t =>
+    obtain ⟨q', m', hk', hn'⟩ := hi.tsFrom t hts
+    have hnow := hclock q' m' hk'
+    rw [hn'] at hnow
+    rw [(refresh_skipped c p t _ hr hpc hts hnow).1]
+    simp [leave, hp]
+
+/-! ### the code before the repair (`Cache.current`) violates every clause -/
+
+/-- one bundled file of two chunks -/
+def cfg1 : Cfg := ⟨1, 2, 1800, 4⟩
+
+/-- (a) two `CacheLock` holders overlap; (b) a populate killed after the first chunk leaves a torn file
+under the final name which a later complete populate keeps (`exists` → skip) and a later load is served;
+(c) a load concurrent with a populate reads the half-copied file. -/
+theorem current_counterexamples :
+    -- (a)
+    (let s := runSt cfg1 .current [.step 0, .step 1] (init [(.populate, 5000), (.populate, 5000)])
+     (s.procs 0).inRegion && (s.procs 1).inRegion) = true ∧
+    -- (b)
+    (let s := runSt cfg1 .current
+        [.step 0, .step 0, .step 0, .step 0, .crash 0, .step 1, .step 1, .step 1, .step 2, .step 2]
+        (init [(.populate, 5000), (.populate, 5000), (.load 0, 5000)])
+     s.files (.final 0) = some ⟨0, [true]⟩ ∧ (s.procs 1).status = .finished ∧ (s.procs 1).err = none ∧
+       (s.procs 2).status = .finished ∧ (s.procs 2).got = some (some ⟨0, [true]⟩)) ∧
+    -- (c)
+    (let s := runSt cfg1 .current [.step 0, .step 0, .step 0, .step 0, .step 1, .step 1, .step 0, .step 0]
+        (init [(.populate, 5000), (.load 0, 5000)])
+     (s.procs 1).got = some (some ⟨0, [true]⟩) ∧ (s.procs 0).status = .finished ∧
+       s.files (.final 0) = some (full cfg1 0)) := by
+  decide
+
+/-! ### non-vacuity: the hypotheses of the theorems are satisfiable, and the same schedules are harmless
+under `Cache.safe` -/
+
+/-- the primitives of an undisturbed populate, in order (the "list of primitive steps" of the process) -/
+example : (run cfg1 .safe 1 (List.replicate 11 (.step 0)) (init [(.populate, 5000)])).1.map (·.what) =
+    ["readTs", "openLock", "tryLock", "exists", "mktemp", "create", "append", "append", "rename", "unlock",
+     "idle"] := by decide
+
+/-- schedule (b) under the repaired protocol: the killed populate leaves only a temp file, the second one
+completes the cache, the loader gets the bundled content -/
+example :
+    (let s := runSt cfg1 .safe
+        ([.step 0, .step 0, .step 0, .step 0, .step 0, .step 0, .step 0, .crash 0] ++ List.replicate 10 (.step 1) ++
+          [.step 2, .step 2])
+        (init [(.populate, 5000), (.populate, 5000), (.load 0, 5000)])
+     s.files (.final 0) = some (full cfg1 0) ∧ s.files (.tmp 0 0) = some ⟨0, [true]⟩ ∧
+       (s.procs 2).kind = .load 0 ∧ (s.procs 2).status = .finished ∧
+       (s.procs 2).got = some (some (full cfg1 0))) := by decide
+
+/-- a loader arriving in the middle of a populate is served the bundled file (not in the listing yet) -/
+example :
+    (let s := runSt cfg1 .safe [.step 0, .step 0, .step 0, .step 0, .step 0, .step 0, .step 0, .step 1]
+        (init [(.populate, 5000), (.load 0, 5000)])
+     s.files (.final 0) = none ∧ (s.procs 1).status = .finished ∧ (s.procs 1).got = some (some (full cfg1 0))) := by
+  decide
+
+/-- the lock-timeout branch is reachable: the second populate burns its five attempts and gives up -/
+example :
+    (let s := runSt cfg1 .safe ([.step 0, .step 0, .step 0] ++ List.replicate 7 (.step 1))
+        (init [(.populate, 5000), (.populate, 5000)])
+     (s.procs 0).inRegion = true ∧ (s.procs 1).status = .finished ∧ (s.procs 1).err = some .lockTimeout ∧
+       s.holder = some 0) := by decide
+
+/-- the hypotheses of `refresh_skipped_after_completed` are satisfiable: refresh 0 completes at clock 5000,
+refresh 1 starts at 5100 -/
+example :
+    (let s := runSt cfg1 .safe (List.replicate 10 (.step 0)) (init [(.refresh 1, 5000), (.refresh 1, 5100)])
+     (s.procs 0).status = .finished ∧ (s.procs 0).err = none ∧ s.ts = some 5000 ∧
+       (s.procs 1).status = .running ∧ (s.procs 1).pc = .readTs ∧
+       ((step cfg1 .safe 1 s).procs 1).err = some .tooRecent ∧ ((step cfg1 .safe 1 s).procs 1).status = .finished) := by
+  decide
 
 end HedVerif.C19
